@@ -45,6 +45,15 @@ Theorem C27_lookup_is_membership : forall (C : Type) (reg : registry C) k c,
 Proof. intros C. exact (@lookup_iff C). Qed.
 Print Assumptions C27_lookup_is_membership.
 
+(* registration (class X(RpcError, error_id=...)) stores every given id verbatim: afterwards the class is
+   found under exactly the ids it was declared with - a protocol-qualified full id stays protocol-qualified -
+   and all other keys are untouched *)
+Theorem C27_registration_is_verbatim : forall (C : Type) (reg : registry C) (ids : list ident) (c : C) (k : ident),
+  (In k ids -> lookup (register reg ids c) k = Some c) /\
+  (~ In k ids -> lookup (register reg ids c) k = lookup reg k).
+Proof. intros C. exact (@register_spec C). Qed.
+Print Assumptions C27_registration_is_verbatim.
+
 (* the order of attempts for the identifier shapes named by the property *)
 Theorem C27_variants_of_canonical_forms : forall p h c n : chunk,
   variants [p; h; c; n] = [[p; h; c; n]; [c; n]; [n]; [c]] /\
@@ -66,6 +75,13 @@ Proof.
     [apply script_rejected | apply bad_return | apply tez_category | apply unregistered_generic].
 Qed.
 Print Assumptions C27_registered_examples.
+
+(* the table of pytezos.rpc.errors is what its five class statements register *)
+Example C27_handlers_built :
+  build [([["michelson_v1"; "bad_contract_parameter"]], MichelsonBadContractParameter);
+         ([["michelson_v1"; "bad_return"]], MichelsonBadReturn); ([["michelson_v1"]], MichelsonError);
+         ([["tez"]], TezArithmeticError); ([["script_rejected"]], MichelsonScriptRejected)] = handlers.
+Proof. reflexivity. Qed.
 
 (* non-vacuity: the hypothesis of C27_lookup_is_membership holds for the real registry, and
    all four ranks are inhabited *)
